@@ -160,9 +160,21 @@ func validateProtocolSequenceNames(env *Environment, errorSink *validation.Error
 
 func validateStreams(env *Environment, errorSink *validation.ErrorSink) *Environment {
 	VisitWithContext(env, nil, func(self VisitorWithContext[Node], node Node, context Node) {
-		switch node.(type) {
+		switch t := node.(type) {
 		case TypeDefinition:
 			self.VisitChildren(node, node)
+		case *ProtocolStep:
+			// only the step's own type may be a stream; anything nested inside it may not
+			if gt, ok := t.Type.(*GeneralizedType); ok {
+				for _, typeCase := range gt.Cases {
+					self.Visit(typeCase, gt)
+				}
+				if gt.Dimensionality != nil {
+					self.Visit(gt.Dimensionality, context)
+				}
+				return
+			}
+			self.VisitChildren(node, context)
 		case *Stream:
 			if _, isProtocol := (context).(*ProtocolDefinition); !isProtocol {
 				errorSink.Add(validationError(node, "!streams can only be declared as top-level protocol sequence elements"))
